@@ -189,6 +189,25 @@ def run(rep, tier, seed):
         items.append(("typed", tg.int(2)))
         items.append(("typed", tg.bool(2)))
         items.append(("typed", tg.dbl(2)))
+    # floating point constants that need all 17 significant digits (most doubles do), alone and inside expressions
+    import struct
+    for _ in range(400 if quick else 6000):
+        bits = rng.getrandbits(64)
+        x = struct.unpack(">d", struct.pack(">Q", bits))[0]
+        if x != x or x in (float("inf"), float("-inf")):
+            continue
+        x = abs(x)
+        if rng.random() < 0.5:
+            x = rng.random() * 10 ** rng.randint(-8, 8)
+        lit = ("dbl", repr(x) if "e" in repr(x) or "." in repr(x) else repr(x) + ".0")
+        if "inf" in lit[1] or "nan" in lit[1]:
+            continue
+        items.append(("typed", rng.choice([lit, ("bin", "PLUS", ("id", "d"), lit), ("builtin", "FABS_F", [lit]),
+                                           ("bin", "LT", lit, ("id", "e")), ("ite", ("id", "b"), lit, ("id", "d"))])))
+    for lit in ["0.30000000000000004", "1.0000000000000002", "2.2250738585072014e-308", "5e-324", "1.7976931348623157e308",
+                "0.1", "0.2", "0.7", "123456789.12345679", "9007199254740993.0", "4.35", "2.675", "1e23", "8.41e21"]:
+        items.append(("typed", ("dbl", lit)))
+        items.append(("typed", ("bin", "MULT", ("id", "d"), ("dbl", lit))))
     # untyped trees: accepted by the expression parser (no diagnostics) though not necessarily well typed
     for _ in range(6000 if quick else 60000):
         items.append(("raw", ug.tree(rng.choice([2, 3, 4]))))
